@@ -407,9 +407,41 @@ def random_graph(rng, maxdepth=4):
 FAULT_GRAPHS = ["flat", "nested", "torch", "containers_of_objects", "many_small", "arrays"]
 
 
+FAULT_GRAPHS_EXTRA = ["shared_refs", "layouts", "wide60", "deep20"]  # indices 100, 101, ...
+
+
 def fault_graph(index, seed=0):
-    """graph number `index`: the six named families first, seeded random graphs afterwards."""
+    """graph number `index`: the six named families first, seeded random graphs afterwards; 100+ = the widening families."""
     rng = np.random.default_rng([int(seed), 8, 77, int(index)])
+    if index >= 100:
+        from vf import serkinds
+
+        name = FAULT_GRAPHS_EXTRA[index - 100]
+        if name == "shared_refs":
+            return serkinds.make_shared(rng)
+        g = Node()
+        if name == "layouts":
+            for j, w in enumerate(("transposed", "stride2", "readonly", "broadcast", "view_of_torch", "swapaxes3d")):
+                setattr(g, "arr%d" % j, serkinds.make_layout_array(rng, w))
+            for j, w in enumerate(("expanded", "permuted", "stride2", "from_numpy", "expanded_grad")):
+                setattr(g, "t%d" % j, serkinds.make_layout_tensor(rng, w))
+            g.lst = [serkinds.make_layout_array(rng, "reversed"), serkinds.make_layout_tensor(rng, "t")]
+        elif name == "wide60":
+            for i in range(60):
+                setattr(g, "a%03d" % i, [i, float(i) + 0.5, "s%d" % i, None, make_array_shape(rng, "int8", (2,))][i % 5])
+            g.items = ["i%d" % i if i % 2 else i for i in range(25)]
+        else:  # deep20
+            o = Leaf()
+            o.n = 0
+            for i in range(20):
+                q = Leaf() if i % 2 else Other()
+                q.child = o
+                q.n = i + 1
+                q.items = [i, ("x", [i])]
+                o = q
+            g.chain = o
+            g.tail = "end"
+        return g
     if index >= len(FAULT_GRAPHS):
         return _safe_random_graph(rng)
     name = FAULT_GRAPHS[index]
